@@ -300,21 +300,21 @@ func main() {
 		}
 	}
 	r := gen.NewRand(f.Seed)
-	for i, n := 0, f.N(1500, 60000); i < n; i++ {
+	for i, n := 0, f.N(1500, 40000); i < n; i++ {
 		gatherCase(w, r)
 	}
-	for i, n := 0, f.N(600, 20000); i < n; i++ {
+	for i, n := 0, f.N(600, 10000); i < n; i++ {
 		breakCase(w, r)
 	}
-	for i, n := 0, f.N(400, 10000); i < n; i++ {
+	for i, n := 0, f.N(400, 6000); i < n; i++ {
 		romCase(w, r)
 	}
-	for i, n := 0, f.N(60, 1500); i < n; i++ {
+	for i, n := 0, f.N(60, 800); i < n; i++ {
 		findoffCase(w, r)
 	}
 	// end to end
 	files := 0
-	for i, n := 0, f.N(120, 3000); i < n; i++ {
+	for i, n := 0, f.N(120, 1500); i < n; i++ {
 		docs := e2lib.GenCorpus(r)
 		for k := 0; k < 6; k++ {
 			q, class := e2lib.GenQuery(r, docs)
